@@ -937,4 +937,63 @@ example : [[Child.anchor .onset, .defTag ['a'], .defTag ['c', '/', '1']],
            [.defTag ['z'], .tag, .tag]].map (groupShapeIssues exDefs id) =
     [[.tooManyDefs], [.wrongNumberGroups], [.wrongNumberGroups], [.noDef], [.tagOutsideGroup],
      [.tagOutsideGroup, .defUnmatched], [.placeholderWrong], []] := by decide
+
+/-! ### which rows take part: warnings do not remove a row, errors do -/
+
+theorem rowInvalid_warning (l : List Sev) : rowInvalid (.warning :: l) = rowInvalid l := by
+  simp [rowInvalid]
+
+theorem rowInvalid_error (l : List Sev) : rowInvalid (.error :: l) = true := by
+  simp [rowInvalid]
+
+/-- **Rows with warnings take part.** Adding a warning-level cell issue to any row changes neither
+the time points handed to the Onset/Offset machine nor the temporal issues of the file. -/
+theorem warning_rows_participate (fold : Str → Str) (rows : List Row) (ci : Nat → List Sev) (i : Nat) :
+    keptPoints rows (addIssue ci i .warning) = keptPoints rows ci ∧
+    fileErrors fold rows (addIssue ci i .warning) = fileErrors fold rows ci := by
+  have h : ∀ j, rowInvalid (addIssue ci i .warning j) = rowInvalid (ci j) := by
+    intro j
+    unfold addIssue
+    split
+    · exact rowInvalid_warning _
+    · rfl
+  have hk : keptPoints rows (addIssue ci i .warning) = keptPoints rows ci := by
+    simp only [keptPoints, h]
+  exact ⟨hk, by simp only [fileErrors, hk]⟩
+
+/-- if no row has an error-severity issue, every time point takes part -/
+theorem no_error_all_participate (rows : List Row) (ci : Nat → List Sev)
+    (h : ∀ i, rowInvalid (ci i) = false) : keptPoints rows ci = timePoints rows := by
+  simp [keptPoints, h]
+
+/-- **Rows with an error are skipped.** No time point labelled with a row that has an error-severity
+cell issue is handed to the machine, and no temporal issue is reported against such a row. -/
+theorem error_rows_skipped (fold : Str → Str) (rows : List Row) (ci : Nat → List Sev) :
+    (∀ tp ∈ keptPoints rows ci, rowInvalid (ci tp.orig) = false) ∧
+    (∀ tp ∈ timePoints rows, rowInvalid (ci tp.orig) = true → tp ∉ keptPoints rows ci) ∧
+    (∀ x ∈ fileErrors fold rows ci, rowInvalid (ci x.1) = false) := by
+  have h1 : ∀ tp ∈ keptPoints rows ci, rowInvalid (ci tp.orig) = false := by
+    intro tp h
+    simpa [keptPoints] using (List.mem_filter.mp h).2
+  refine ⟨h1, ?_, ?_⟩
+  · intro tp _ he hk
+    rw [h1 tp hk] at he
+    cases he
+  · intro x hx
+    simp only [fileErrors, List.mem_map] at hx
+    obtain ⟨y, hy, rfl⟩ := hx
+    have hb := errors_belong_to_markers fold _ [] 0 y hy
+    simp only [List.length_map, Nat.zero_add] at hb
+    have hlt : y.1 < (keptPoints rows ci).length := hb.2
+    simp only [List.getElem?_eq_getElem hlt, Option.map_some, Option.getD_some]
+    exact h1 _ (List.getElem_mem hlt)
+
+/-- a later Inset depends on an Onset written on a row with a warning (kept) or an error (skipped) -/
+example : fileErrors id [⟨8, [⟨.onset, ['a']⟩], []⟩, ⟨16, [⟨.inset, ['a']⟩], []⟩]
+    (fun i => if i = 0 then [.warning] else []) = [] := by decide
+example : fileErrors id [⟨8, [⟨.onset, ['a']⟩], []⟩, ⟨16, [⟨.inset, ['a']⟩], []⟩]
+    (fun i => if i = 0 then [.warning, .error] else []) = [(1, .insetBeforeOnset)] := by decide
+/-- the Delay-shifted group of a skipped row is skipped with it -/
+example : fileErrors id [⟨8, [], [(4, [⟨.onset, ['a']⟩])]⟩, ⟨16, [⟨.offset, ['a']⟩], []⟩]
+    (fun i => if i = 0 then [.error] else []) = [(1, .offsetBeforeOnset)] := by decide
 end HedVerif.C10
